@@ -117,6 +117,7 @@ structure Cfg where
   wstall : Bool := false           -- body > 64 KiB and the transport pauses writing at the first write
   think : Nat := 0
   bufsize : Nat := 65536
+  https : Bool := false            -- TLS: after the TCP connect the handshake runs inside `create_connection`
   closeDelim : Bool := false       -- response body delimited by connection close (no Content-Length, not chunked)
 deriving Repr
 
@@ -140,6 +141,7 @@ inductive Ev where
   | holderRelease
   | dnsAnswer
   | connDone (i : Nat)
+  | tlsDone (i : Nat)   -- the TLS handshake of attempt `i` completes
   | writeResume
   | bytes (p : Piece)
   | peerEof        -- the peer closes the connection: `eof_received()` + `connection_lost(None)`
@@ -173,6 +175,7 @@ structure St where
   rpaused : Bool := false
   queued : List Piece := []
   respReleased : Bool := false      -- the response no longer owns a connection
+  tls : Bool := false               -- the current connect attempt is in its TLS handshake
   peerLost : Bool := false          -- the peer closed; `connection_lost` not yet delivered
   dropTotal : Bool := false         -- `handle.cancel` of the total timer is queued behind the writer's end
   holder : Bool := false
@@ -302,7 +305,7 @@ def attemptConn (cfg : Cfg) (s : St) : St :=
     | some d => if d = 0 then { s with sockCtx := .entered, sockT := none }
                 else { s with sockCtx := .entered, sockT := some (ctxDeadline s.now d, s.seq), seq := s.seq + 1 }
     | none => { s with sockCtx := .entered, sockT := none }
-  { s with pc := .connecting, wake := none }
+  { s with pc := .connecting, wake := none, tls := false }
 
 /-- placeholder acquired; `_create_connection` up to its first suspension -/
 def createConn (cfg : Cfg) (s : St) : St :=
@@ -412,7 +415,10 @@ def resumeR (cfg : Cfg) (s : St) : St :=
       createConn cfg { s with rWoken := false, poolQ := s.poolQ.filter (· ≠ .R) }
     | .dnsOwner | .dnsWaiter =>
       attemptConn cfg { s with dnsWaitR := false, addrsLeft := cfg.naddr, attempt := 0 }
-    | .connecting => afterConnect cfg s
+    | .connecting =>
+      -- `start_connection` returned the socket; for TLS `create_connection(sock=…, ssl=…)` suspends
+      -- again for the handshake — still inside `ceil_timeout(sock_connect)`
+      if cfg.https ∧ !s.tls then { s with tls := true } else afterConnect cfg { s with tls := false }
     | .headers =>
       match afterHeaders cfg s with
       | (s, none) => s
@@ -495,7 +501,9 @@ def applyEv (cfg : Cfg) (s : St) : Ev → St
       let s := if s.cpc = .dnsOwner ∨ s.cpc = .dnsWaiter then { s with cpc := .ok } else s
       if (s.pc = .dnsOwner ∨ s.pc = .dnsWaiter) ∧ s.wake = none then { s with wake := some .result } else s
   | .connDone i =>
-    if s.pc = .connecting ∧ s.attempt = i ∧ s.wake = none then { s with wake := some .result } else s
+    if s.pc = .connecting ∧ s.attempt = i ∧ !s.tls ∧ s.wake = none then { s with wake := some .result } else s
+  | .tlsDone i =>
+    if s.pc = .connecting ∧ s.attempt = i ∧ s.tls ∧ s.wake = none then { s with wake := some .result } else s
   | .writeResume =>
     if s.wr = .parked ∧ s.tr = .open then reschedRead cfg { s with wr := .finished } else s
   | .bytes p => deliver cfg s p
